@@ -50,7 +50,7 @@ var kC20 = run.NewKind("c20.footprint", func(c *run.Ctx, t c20Case) *run.Fail {
 	case "gen":
 		ctx := run.Budget(int64(n) * 8 * 400)
 		iter := code.RunWithContext(ctx, nil, n)
-		var footN, foot8 [5]int
+		var footN, footE, foot8 [5]int
 		var first []any
 		for i := 1; i <= 8*n; i++ {
 			v, ok := iter.Next()
@@ -59,6 +59,15 @@ var kC20 = run.NewKind("c20.footprint", func(c *run.Ctx, t c20Case) *run.Fail {
 			}
 			if e, isErr := v.(error); isErr {
 				if e == run.ErrBudget {
+					// out of instructions (a turn that costs more the longer the run lasts): the state kept so far still tells
+					ref, at := footN, n
+					if i <= n+n/4 {
+						ref, at = footE, max(n/8, 20)
+					}
+					if now, ok := gojq.VerifFootprint(iter); ok && i > at+at/4+8 && footSum(now) > footSum(ref)+4*c20Slack {
+						return run.Failf("%q: interpreter state grew from %v (sum %d) after %d outputs to %v (sum %d) after %d outputs, where the instruction budget of %d ended the run [stack, paths, scopes, registers, forks]",
+							t.Src, ref, footSum(ref), at, now, footSum(now), i-1, int64(n)*8*400)
+					}
 					c.Inconclusive("budget")
 					return nil
 				}
@@ -69,6 +78,9 @@ var kC20 = run.NewKind("c20.footprint", func(c *run.Ctx, t c20Case) *run.Fail {
 			}
 			if i == n {
 				footN, _ = gojq.VerifFootprint(iter)
+			}
+			if i == max(n/8, 20) {
+				footE, _ = gojq.VerifFootprint(iter) // an early checkpoint, in case the instruction budget ends the run before n
 			}
 		}
 		foot8, ok := gojq.VerifFootprint(iter)
@@ -104,6 +116,10 @@ var kC20 = run.NewKind("c20.footprint", func(c *run.Ctx, t c20Case) *run.Fail {
 			}
 			if e, isErr := v.(error); isErr {
 				if e == run.ErrBudget {
+					if now, ok := gojq.VerifFootprint(iter); ok && k == 1 && footSum(now) > footSum(foots[0])+4*c20Slack {
+						return run.Failf("%q: interpreter state grew from %v (sum %d) for the whole run with $n=%d to %v (sum %d) at the point where the instruction budget ended the run with $n=%d [stack, paths, scopes, registers, forks]",
+							t.Src, foots[0], footSum(foots[0]), n, now, footSum(now), nn)
+					}
 					c.Inconclusive("budget")
 					return nil
 				}
@@ -226,6 +242,8 @@ var kC20Cmd = run.NewKind("c20.command-rss", func(c *run.Ctx, t c20CmdCase) *run
 })
 
 var c20Gens = []string{
+	"0 | recurse([. + 1][])", "0 | recurse({a: (. + 1)}[])", "0 | repeat([. + 1][])", "[0] | recurse([.[0] + 1]; true) | .[0]", "0 | recurse(. + 1; . >= 0)", "def f: ., ([. + 1][] | f); 0 | f", "def f: ., ({a: (. + 1)} | .[] | f); 0 | f", "0 | while(true; [. + 1][])", "range(infinite) | [.][]", "range(infinite) | {a: .}[]",
+	"0 | recurse(if . % 2 == 0 then [. + 1][] else {a: (. + 1)}[] end)", "0 | recurse(. + 1; true) | [.][]",
 	"range(infinite)", "range(1e9)", "range(0; 1e9; 3)", "range($n * 100)", "range(0; infinite; 1)", "range(5; -infinite; -1)",
 	"0 | while(true; . + 1)", "0 | while(. < 1e9; . + 2)", "repeat(1)", "0 | repeat(. + 1)", "0 | recurse(. + 1)", "0 | recurse(. + 1; true)", "0 | recurse(. + 1; . < 1e9)",
 	"limit($n * 100; repeat(1))", "limit($n * 100; range(infinite))", "repeat(first(range(3; 10)))", "repeat(first(repeat(2)))", "inputs", "repeat(input)", "foreach range(infinite) as $x (0; . + 1)",
@@ -242,6 +260,12 @@ var c20Gens = []string{
 }
 
 var c20Loops = []string{
+	// turns that pass through the last (or only) member of a container before going on without backtracking
+	"0 | until(. >= $n; [. + 1][])", "0 | until(. >= $n; {a: (. + 1)}[])", "0 | until(. >= $n; [., . + 1] | .[1:][])", "0 | until(. >= $n; [. + 1] | .[0:][])", "0 | until(. >= $n; {a: (. + 1)} | .[keys[]])", "0 | until(. >= $n; {a: (. + 1)} | to_entries[] | .value)",
+	"0 | until(. >= $n; tostring | split(\",\")[] | tonumber + 1)", "0 | until(. >= $n; [[. + 1]][][])", "0 | until(. >= $n; . + 1 | tostring | [scan(\"[0-9]+\")][] | tonumber)", "0 | until(. >= $n; [. + 1] | .[-1:][])",
+	"def f: if . >= $n then . else [. + 1] | .[] | f end; 0 | f", "def f: if . >= $n then . else {a: (. + 1)} | .[] | f end; 0 | f", "def f: if . >= $n then . else ([. + 1][] | f) end; 0 | f", "def f: if . >= $n then . else [. + 1] | .[] as $x | $x | f end; 0 | f",
+	"last(limit($n + 1; 0 | recurse(. + 1; true)))", "last(limit($n + 1; 0 | recurse(. + 1; . >= 0)))", "last(limit($n + 1; [0] | recurse([.[0] + 1]; true))) | .[0]", "last(limit($n + 1; 0 | recurse([. + 1][])))", "last(limit($n + 1; 0 | recurse(. + 1)))", "[limit($n + 1; 0 | recurse(. + 1; true))] | length",
+	"nth($n; 0 | recurse(. + 1; true))", "first(0 | recurse(. + 1; true) | select(. >= $n))", "last(limit($n; repeat([1][])))", "reduce range($n) as $i (0; [. + 1][])", "reduce range($n) as $i ([0]; [.[] + 1])  | .[0]", "last(foreach range($n) as $i (0; [. + 1][]))",
 	"reduce range($n) as $x (0; . + $x)", "last(range($n))", "0 | until(. >= $n; . + 1)", "[limit($n; repeat(1))] | length", "reduce limit($n; repeat(1)) as $x (0; . + $x)", "last(limit($n; range(infinite)))",
 	"first(range($n; infinite))", "reduce range($n) as $x (0; . + 1) | . + 1", "last(0 | while(. < $n; . + 1))", "last(0 | recurse(. + 1; . < $n))", "reduce (0 | recurse(. + 1; . < $n)) as $x (0; . + 1)", "last(foreach range($n) as $x (0; . + 1))",
 	"reduce foreach range($n) as $x (0; . + 1) as $y (0; $y)", "nth($n; range(infinite))", "isempty(range($n) | select(. < 0))", "all(range($n); . >= 0)", "any(range($n); . < 0)", "[range($n) | select(. < 0)] | length", "last(limit($n; inputs))", "reduce limit($n; inputs) as $x (0; . + 1)",
